@@ -5,22 +5,22 @@ V = os.path.dirname(os.path.dirname(os.path.abspath(__file__)))
 BUILT = set(sys.argv[1:]) if len(sys.argv) > 1 else None
 
 checks = {
- "C01": dict(technique="runtime monitoring: recovered-panic / step-budget-hook / CPU-watchdog / guarded-buffer monitors over hostile inputs; Go race detector twin",
-             text="Hostile inputs (all prefixes, token soup, byte mutations, splices, random bytes, size stress) x all 12 versions x {callback, nil}: every Parse call runs under recover, under the verif step/token budget hooks (hang = logical-step overrun), a per-case CPU watchdog with isolated confirmation, a canary-guarded input array and stdout/stderr silence; hook step counts on k-fold replications check proportionality. Held on the executions produced, nothing more.",
+ "C01": dict(technique="runtime monitoring: recovered-panic / logical-step hook (step and token budgets, token order) / CPU-watchdog / guarded-buffer / stdout-stderr monitors over hostile inputs, a complete lexical-context x byte enumeration and size-parametrised stress shapes",
+             text="Hostile inputs (prefixes, token soup, byte mutations, splices, random bytes), the context x byte enumeration, every corpus/torture snippet and 32 adversarial shapes x versions of both families x {callback, nil}: every Parse call runs under recover, under the verif step/token budget hooks (a hang is a logical-step overrun), a per-case CPU watchdog with isolated confirmation, a canary-guarded input array and an fstat of stdout/stderr; hook step counts on k-fold replications and CPU time at n vs 8n check proportionality (three confirmations, else inconclusive).",
              note="Trusted: the verif hooks bound all non-advancing lexer work (sites listed in DESIGN §3); Go runtime bounds checks turn memory errors into panics.", ref="§6 C01"),
  "C02": dict(technique="runtime monitor: byte-equality oracle on print(parse(src)) with provenance writer, over generated/hostile/corpus sources",
              text="Every input of the workload that parses with zero errors is printed and compared byte for byte with the source, under every version; the provenance writer localises the first differing chunk.",
              note="Only silent parses the workload reaches are observed.", ref="§6 C02"),
- "C03": dict(technique="runtime monitor: reference-model oracle (grammar-directed generator with expected derivation, independent Pratt self-check) over generated programs",
-             text="Generated valid programs with their prescribed tree (kinds, roles, order, verbatim values) are parsed under versions that have the syntax; any delivered error or structural difference refutes. Pairwise operator coverage and construct coverage are reported.",
-             note="Trusted: the generator's table of PHP precedence/associativity and its construct->node mapping, double-checked by an independent Pratt parser (disagreements are inconclusive).", ref="§6 C03"),
- "C04": dict(technique="runtime monitor: token invariants (text/offset/line/tiling/classification) checked on every returned tree against an independent line counter",
+ "C03": dict(technique="runtime monitor: two reference-model oracles — a grammar-directed program generator with expected derivation (tree-first, minimal parentheses from PHP's precedence table) and an independent precedence-climbing reference parser over random unparenthesised token strings (string-first)",
+             text="Generated valid programs of both families with their prescribed tree (kinds, roles, order, verbatim values) parsed under versions that have the syntax: any delivered error or structural difference refutes; PHP 7-only syntax must be rejected under 5.x and flexible heredocs before 7.3; random operator strings are judged by the reference parser (tree, or syntax error for non-associative chains). Construct, operator-pair and adjacent-operator coverage are reported.",
+             note="Trusted: the generator's construct->(kind, roles) mapping and my reading of PHP's precedence table (encoded twice, independently: renderer and reference parser).", ref="§6 C03"),
+ "C04": dict(technique="runtime monitor: token invariants (object identity, text, offsets, lines, order, tiling, free-floating classification, leaf values) on every returned tree against an independent line counter; online token-order hook; earlier trees re-read after later parses",
              text="For every tree returned on the workload: token text = source slice, offsets in range and increasing, lines = reference lines (LF, CRLF, lone CR), and for error-free parses exact tiling, free-floating attachment and classification, leaf value = token text.",
              note="Trusted: reflection walker over exported fields; reference line counter.", ref="§6 C04"),
  "C05": dict(technique="runtime monitor: node span oracle (min/max token offsets of the subtree, documented conventions) on error-free parses",
              text="For every node of every error-free tree of the workload: start/end = first/last own token under the documented conventions, nesting, sibling order, lines.",
              note="Conventions encoded are exactly those in the property text and DESIGN §6 C05.", ref="§6 C05"),
- "C06": dict(technique="runtime monitor over recorded error-callback event sequences; guaranteed-breaking edits (counting argument) as fault injection",
+ "C06": dict(technique="runtime monitor over recorded error-callback event sequences; guaranteed-breaking edits (counting argument) as fault injection; callback-vs-nil and nested-parse (re-entrancy) differential monitors",
              text="Valid generated programs with an edit that is invalid by a bracket/operator counting argument must deliver >= 1 error; every delivered error is checked for message, range, line, order; callback vs nil trees compared by full fingerprint.",
              note="'Invalid' is only asserted for edits invalid by construction.", ref="§6 C06"),
  "C07": dict(technique="runtime monitor: prefix-statement equality oracle and provenance checker on printed recovery trees",
@@ -35,25 +35,25 @@ checks = {
  "C10": dict(technique="runtime monitor: differential full-fingerprint oracle between the PHP5 and PHP7 grammars on generated common-subset programs",
              text="Common-subset programs (no PHP7-only syntax, no uniform-variable-syntax regroupings) in many layouts are parsed under 5.x and 7.x; kinds, values, tokens, free-floating content and positions must be identical.",
              note="Trusted: the generator's definition of the common subset (DESIGN §6 C10 scope decision).", ref="§6 C10"),
- "C11": dict(technique="Go race detector over concurrent pipelines with yield injection at verif hooks; sequential-baseline equality oracle; real CLI run under -race",
-             text="N goroutines x GOMAXPROCS settings run parse/print/dump/traverse/resolve pipelines on different inputs under -race with Gosched injection; every result must equal the sequential baseline, race reports are de-duplicated and are violations; the CLI worker pool is run under -race on a generated directory.",
+ "C11": dict(technique="Go race detector (twin run from a -race build, Gosched injection at the lexer hooks) over batches of concurrent pipelines; result equality against the sequential run computed afterwards; measured interleaving diversity; the real CLI under -race",
+             text="Batches of 2..32 goroutines x GOMAXPROCS {1,2,4,16} run parse/print/dump/traverse/resolve/format pipelines on different inputs, concurrent phase first and the sequential baseline afterwards in the same process; every result must equal the baseline; the -race twin reports de-duplicated race reports as violations and runs the CLI worker pool over a generated directory (-d -r -e -p -pb), comparing rewritten files and the multiset of dumps with the results obtained alone.",
              note="The race detector only sees interleavings that occur; diversity is measured and reported.", ref="§6 C11"),
  "C12": dict(technique="runtime monitor: recording visitor vs reflection pre-order oracle, exhaustive over node kinds x child-slot subsets, plus parsed trees",
              text="Every node kind of ast.Visitor x slot subsets (all 2^k for k<=12) traversed with a recording visitor and compared with the reflection pre-order; parsed trees additionally checked for shared node objects and sibling source order.",
              note="Trusted: reflection walker (field declaration order = slot order), generated recording visitor.", ref="§6 C12"),
- "C13": dict(technique="runtime monitor: full-fingerprint and output-stability oracle over PRNG operation histories; race detector on concurrent readers",
+ "C13": dict(technique="runtime monitor: pointer-level fingerprint and output-stability oracle over PRNG operation histories (two printer configurations, subtree print, four dump option sets, traversals, resolver); race-detector twin with two concurrent readers of one tree",
              text="PRNG histories over {print, dump x4, traverse(null), traverse(resolver), Accept(null)} on parsed trees: pointer-level fingerprint and guarded source must be unchanged after every operation and every output must equal the fresh-tree output.",
              note="Fingerprint covers every exported field reachable by reflection incl. slice len/cap and data pointers.", ref="§6 C13"),
  "C14": dict(technique="runtime monitor: reference-model oracle (independent implementation of PHP name resolution) over generated namespace programs",
              text="Generated programs with namespaces, use/group-use/aliases in PRNG letter case and references in every resolvable position: ResolvedNames must equal the reference resolver's map (missing, extra, wrong).",
              note="Trusted: model.Resolve, written from PHP's documented rules.", ref="§6 C14"),
- "C15": dict(technique="runtime monitor: marker-sequence oracle on printer output, exhaustive over node kinds x slot subsets; provenance monitor for subtree replacement on parsed trees",
+ "C15": dict(technique="runtime monitor: marker-sequence oracle on printer output, exhaustive over node kinds x slot subsets; provenance monitor for three edits of parsed trees (marker leaf, token-less word, token-less wrapper)",
              text="Every node kind x slot subsets with unique marker tokens/free-floating/leaves/separators: output must contain exactly the present markers in slot order, default separators where tokens are missing, and only PHP lexemes otherwise; parsed trees with one subtree replaced must print identically outside it.",
              note="Trusted: field order = source order (monitored on parsed trees by C04/C12).", ref="§6 C15"),
- "C16": dict(technique="runtime monitor: dump read back with go/parser and compared field by field with a reflection walk, exhaustive over node kinds x slot subsets x 4 option sets",
+ "C16": dict(technique="runtime monitor: dump read back with go/parser and compared field by field with a reflection walk (token ids evaluated against the constant declarations), exhaustive over node kinds x slot subsets x 4 option sets, plus parsed trees",
              text="Every node kind x slot subsets (marker values incl. bytes that need quoting, unique positions) x {tokens,positions} option sets, plus parsed trees: valid Go, type, labels, presence, content, exclusion by options.",
              note="Trusted: go/parser as the definition of valid Go syntax.", ref="§6 C16"),
- "C17": dict(technique="runtime monitor: round-trip structure oracle, layout-invariance and idempotence oracles on formatter output over generated unit and composite programs",
+ "C17": dict(technique="runtime monitor: format/print/reparse round-trip structure oracle, idempotence and whitespace-layout-invariance oracles over generated programs, with reduction of a failing program to its focal construct",
              text="Unit programs (one focal kind, one slot configuration) and composites: format+print must re-parse silently to the same structure, be identical across whitespace layouts, and be a fixed point.",
              note="Known formatter defects are enumerated by signature in known-findings.jsonl.", ref="§6 C17"),
  "C18": dict(technique="runtime monitor over Pool.Get histories (pointer-distinctness and write-isolation oracle), exhaustive over a block-size grid plus long histories",
